@@ -524,8 +524,10 @@ func typedNilRule(w *World, r *Report, rule string) {
 				r.OK(rule, fi.Key, inst, w.Pos(c.pos), "the pointer is the caller's argument", false)
 			case w.alwaysAllocated(info, fi.Decl, c.rhs, 0):
 				r.OK(rule, fi.Key, inst, w.Pos(c.pos), "the variable stored is only ever assigned a fresh allocation", true)
+			case !nilDeclared(info, fi.Decl, c.rhs):
+				r.OK(rule, fi.Key, inst, w.Pos(c.pos), "the variable stored is never declared without a value nor assigned nil in this function", false)
 			default:
-				r.Fail(VUndecided, rule, fi.Key, inst, w.Pos(c.pos), "cannot tell whether the pointer stored into the interface-typed "+c.text+" can be nil")
+				r.Fail(VUndecided, rule, fi.Key, inst, w.Pos(c.pos), "cannot tell whether the pointer stored into the interface-typed "+c.text+" can be nil: the variable is declared without a value or assigned nil, and the store is outside what the interpreter followed")
 			}
 		}
 	}
@@ -533,6 +535,42 @@ func typedNilRule(w *World, r *Report, rule string) {
 
 // alwaysAllocated: id names a local variable that is defined by := or = only from new(T), &T{...} or a
 // call of a module constructor, and never declared without a value.
+// nilDeclared: the variable is declared by `var v *T` without a value, or assigned the literal nil.
+func nilDeclared(info *types.Info, fn *ast.FuncDecl, id *ast.Ident) bool {
+	obj := info.ObjectOf(id)
+	if obj == nil {
+		return true
+	}
+	found := false
+	ast.Inspect(fn, func(nd ast.Node) bool {
+		switch x := nd.(type) {
+		case *ast.ValueSpec:
+			for i, n := range x.Names {
+				if info.ObjectOf(n) != obj {
+					continue
+				}
+				if len(x.Values) == 0 {
+					found = true
+				} else if i < len(x.Values) {
+					if tv, ok := info.Types[unparen(x.Values[i])]; ok && tv.IsNil() {
+						found = true
+					}
+				}
+			}
+		case *ast.AssignStmt:
+			for i, l := range x.Lhs {
+				if lid, ok := unparen(l).(*ast.Ident); ok && info.ObjectOf(lid) == obj && len(x.Lhs) == len(x.Rhs) {
+					if tv, ok := info.Types[unparen(x.Rhs[i])]; ok && tv.IsNil() {
+						found = true
+					}
+				}
+			}
+		}
+		return true
+	})
+	return found
+}
+
 func isParam(info *types.Info, fn *ast.FuncDecl, id *ast.Ident) bool {
 	obj := info.ObjectOf(id)
 	if obj == nil || fn.Type.Params == nil {
